@@ -414,10 +414,10 @@ Definition uact_flavor (x : uact) : str := match x with USet _ _ _ f _ | UDel _ 
 Lemma run_uact_ok tick u fl w m x crash w' m' oc :
   clock_strict tick -> u <> upsdb -> INV w -> mem_ok w (Some u) fl m ->
   uact_ok (w_db w) x -> uact_flavor x = fl ->
-  run_uact tick repaired u u fl w m x crash = (w', m', oc) ->
+  run_uact tick false u u fl w m x crash = (w', m', oc) ->
   INV w' /\ (oc <> OCrashed -> mem_ok w' (Some u) fl m') /\ wpath w' = wpath w.
 Proof.
-  intros CS Hu I M UOK UF E. unfold run_uact in E. cbn [v_uloc repaired] in E.
+  intros CS Hu I M UOK UF E. unfold run_uact in E.
   destruct (do_udb_facts tick w u x CS Hu I) as [I1 [D1 [P1 UC1]]].
   set (w1 := do_udb tick false w u x) in *.
   assert (Pw : wpath w1 = wpath w) by (unfold wpath; rewrite D1; reflexivity).
@@ -519,7 +519,7 @@ Qed.
 Lemma run_uop_ok tick u fl w m o plan crash w' m' oc :
   clock_strict tick -> u <> upsdb -> INV w -> mem_ok w (Some u) fl m ->
   (forall x, plan = Ok (Some x) -> uact_ok (w_db w) x /\ uact_flavor x = o_flavor o) ->
-  run_uop tick repaired u u fl w m o plan crash = (w', m', oc) ->
+  run_uop tick false u u fl w m o plan crash = (w', m', oc) ->
   INV w' /\ (oc <> OCrashed -> mem_ok w' (Some u) fl m') /\ wpath w' = wpath w.
 Proof.
   intros CS Hu I M HP E. unfold run_uop in E.
@@ -549,12 +549,13 @@ Proof.
   - destruct (run_pop tick repaired u u fl w m x
                 (match crash with Some (0, g, b) => Some (g, b) | _ => None end)) as [[w1 m1] oc] eqn:Ep.
     assert (S1 : INV w1 /\ (oc <> OCrashed -> mem_ok w1 (Some u) fl m1) /\ wpath w1 = wpath w).
-    { destruct x as [o|l s f|o t n v|o t n vo]; cbn [run_pop] in Ep.
+    { destruct x as [o|l s f|o t n v|o t n vo|o t n v]; cbn [run_pop v_uloc repaired] in Ep.
       - eapply run_op_ok; eassumption.
       - inversion Ep. subst. split; [apply delete_cache_inv; exact I|]. split; [|reflexivity].
         intros _. apply delete_cache_mem_ok. exact M.
       - eapply run_uop_ok; try eassumption. intros x Hx. eapply uassign_plan_ok. exact Hx.
-      - eapply run_uop_ok; try eassumption. intros x Hx. eapply uunassign_plan_ok. exact Hx. }
+      - eapply run_uop_ok; try eassumption. intros x Hx. eapply uunassign_plan_ok. exact Hx.
+      - eapply run_uop_ok; try eassumption. intros x Hx. eapply uassign_plan_ok. exact Hx. }
     destruct S1 as [I1 [M1 P1]].
     destruct oc; try (
       destruct (run_pops tick repaired u u fl w1 m1 rest
